@@ -77,6 +77,16 @@ def directed_plans(tier):
                                   {'op': 'bootstrap_sample', 'src': 1, 'rdm_desc': 'grp', 'pat_desc': 'index'}],
                           'draw_script': {'0': {'fn': 'randint', 'shape': [2], 'result': list(rv)},
                                           '1': {'fn': 'randint', 'shape': [3], 'result': list(pv)}}})
+    # one object large enough for block-wise square-form code (130 RDMs x 92 conditions = 4 MB of square matrices and more
+    # than 2**20 matrix cells): pattern and joint bootstrap
+    nr, nc = (130, 92) if tier == 'quick' else (270, 64)
+    wide = {'rdm_uids': list(range(1, nr + 1)), 'cond_uids': list(range(100, 100 + nc)), 'nan_cells': [], 'measure': 'euclidean',
+            'descriptors': {}, 'wide': True,
+            'rdm_desc': {'grp': {'values': [i // 2 for i in range(nr)], 'container': 'array'}},
+            'pat_desc': {'grp': {'values': [i // 3 for i in range(nc)], 'container': 'list'}}}
+    for op in ('bootstrap_sample_pattern', 'bootstrap_sample'):
+        plans.append({'spec': wide, 'faults': {'rate': 0, 'kinds': []},
+                      'ops': [{'op': op, 'src': 0, 'rdm_desc': 'grp', 'pat_desc': 'grp'}]})
     return plans
 
 
